@@ -56,6 +56,8 @@ ENUM_SEEDS = [
     'GET /echo HTTP/1.1\r\nHost: a\r\nCookie: a="b\\r\\nX y"\r\n\r\n',
     'GET /echo HTTP/1.15\r\nHost: a\r\n\r\n',
     'GET /reflect HTTP/1.1\r\nHost: a\r\nX-Custom: v\\u20ac\r\n\r\n',
+    'GET /badhdr HTTP/1.1\r\nHost: a\r\n\r\n',
+    'GET / HTTP/1.1\r\nHost: a\r\nCookie: a="\\u20ac"\r\n\r\n',
 ]
 
 
@@ -73,6 +75,11 @@ class Root(Controller):
         # an application that copies a request header into the response (the response handler fails if it cannot be encoded)
         self.response.headers['X-Echo'] = self.request.headers.get('X-Custom', 'none')
         return 'reflected'
+
+    def badhdr(self, *args, **kwargs):
+        # an application bug: a header value that cannot be sent; the response handler of the HTTP component fails
+        self.response.headers['X-Bad'] = '\u20ac'
+        return 'never sent'
 
 
 class Obs(BaseComponent):
@@ -92,6 +99,27 @@ class Obs(BaseComponent):
     @handler('response', priority=101)
     def _resp(self, *args, **kwargs):
         self.responses += 1
+
+
+MAX_TICKS = 400
+MAX_QUEUE = 2000
+
+
+def _settle(rig):
+    """tick() until quiescent; give up (rig.stuck) after MAX_TICKS passes or when the queue explodes.
+
+    A failing handler that is answered twice doubles the number of queued events in every pass: the bound on the queue
+    length keeps such a case from taking for ever (bounded work, verdict 'no-quiescence').
+    """
+    root = rig.srv
+    n = 0
+    while not driver.quiescent(root):
+        if n >= MAX_TICKS or len(root._queue) > MAX_QUEUE:
+            rig.stuck = True
+            return -1
+        root.tick()
+        n += 1
+    return n
 
 
 def _retained(http, sock):
@@ -118,11 +146,13 @@ def _retained(http, sock):
 class C14(Prop):
     id = 'C14'
     rule = ('grammar-generated well-formed requests (method x target x version x 0-5 headers incl. folded ones x '
-            'no body/Content-Length/chunked with extensions and trailers x content types) changed by 1-3 of 41 mutation '
-            'operators (request line, headers, oversized parts, Content-Length, chunk framing, escapes, NUL, high bytes, '
-            'TLS/SSL hellos, truncation, generic byte edits), delivered as 1-5 reads or byte-wise, disconnect after any read '
-            '(also queued in the same loop pass), optionally after an answered keep-alive request; every truncation of 19 '
-            'fixed requests is enumerated (one read + disconnect, and cut + disconnect after the first part); '
+            'no body/Content-Length/chunked with extensions and trailers x content types; controllers: hello, echo, one that '
+            'raises, one whose response cannot be encoded) changed by 1-3 of 41 mutation operators (request line, headers, '
+            'oversized parts, Content-Length, chunk framing, backslash escapes, NUL, high bytes, TLS/SSL hellos, truncation, '
+            'generic byte edits), delivered as 1-5 reads or byte-wise, disconnect after any read (also queued in the same loop '
+            'pass), optionally after an answered keep-alive request, liveness probe connection optionally half-open during '
+            'the hostile traffic; exhaustive part: every truncation of 21 fixed requests (one read + disconnect) and every '
+            'two-read split of them with the disconnect after the first part; '
             'non-trivial = the bytes differ from the well-formed seed and the connection did not get a 200 as its first '
             'answer (4xx/5xx/3xx, nothing, or plain close); distinct = distinct spec hash')
     assumptions = (
@@ -289,7 +319,7 @@ class C14(Prop):
                 if also_disconnect:
                     rig.srv.fire(disconnect(sock))
                     state['disconnected'] = True
-                rig.settle()
+                _settle(rig)
             except KeyboardInterrupt:
                 raise
             except BaseException as e:  # noqa: B036 - anything leaving tick() is the crash the property forbids
@@ -352,7 +382,8 @@ class C14(Prop):
                             break
                 if not state['disconnected']:
                     try:
-                        rig.disconnect(s)
+                        rig.srv.fire(disconnect(s))
+                        _settle(rig)
                     except KeyboardInterrupt:
                         raise
                     except BaseException as e:  # noqa: B036
@@ -375,7 +406,8 @@ class C14(Prop):
                 if len([q for q in wire.requests[nreq:] if q['sock'] is p]) != 1:
                     return bad('not-alive', 'probe request not dispatched exactly once')
                 try:
-                    rig.disconnect(p)
+                    rig.srv.fire(disconnect(p))
+                    _settle(rig)
                 except KeyboardInterrupt:
                     raise
                 except BaseException as e:  # noqa: B036
